@@ -311,6 +311,12 @@ CLAIMED.update({
         "design": "DESIGN.md section 3 C13",
     },
 })
+
+CLAIMED["C06"]["text"] += (" Schema marker (Engine F): the frozen constant SCHEMA_VERSION == 'v1' is in write_snapshot's payload literal and is not removed "
+    "before the write; both writers write the sidecar with schema_version=SCHEMA_VERSION.")
+for _p in ("C03", "C09", "C11", "C13", "C15", "C18"):
+    CLAIMED[_p]["note"] += (" Validator ranges cited as preconditions are tied to the code by the clauses validator-range-enforced:<path> "
+                            "(the normaliser rejects values outside the cited range; message-level check).")
 PENDING_REASON = "check not built yet (construction in progress, see DESIGN.md section 3)"
 NA = {}
 
